@@ -818,6 +818,10 @@ static void scen_run(void)
                                 CHK(C13, u->state == CAT_UNSOLICITED_STATE_IDLE, "a terminal event-handler code did not end the event in progress (it would be processed again)");
                 }
 #endif
+                /* an event line on its way out is always followed by one of the end-of-event / re-format steps (never straight back to
+                 * idle, which would skip clearing the event in progress) */
+                if (u->state == CAT_UNSOLICITED_STATE_FLUSH_IO_WRITE_WAIT || u->state == CAT_UNSOLICITED_STATE_FLUSH_IO_WRITE)
+                        CHK(C13, after_ok_evt(u->write_state_after, u), "an event line is not followed by the end-of-event step (the event would stay 'in progress')");
                 if (u->state == CAT_UNSOLICITED_STATE_IDLE)
                         CHK(C13, u->cmd == NULL && u->cmd_type == CAT_CMD_TYPE_NONE, "the event FSM is idle, yet an event is still reported as in progress (observers stay BUSY for a finished event)");
                 if (USTATE == CAT_UNSOLICITED_STATE_AFTER_FLUSH_OK || USTATE == CAT_UNSOLICITED_STATE_AFTER_FLUSH_RESET)
